@@ -37,6 +37,15 @@ func Run(config RunConfig) error {
 			log.Printf("upload recover: %v", err)
 		}
 	}()
+	// When telemetry is off nothing is uploaded, and nothing is written
+	// either: not even the debug log that newUploader would start.
+	dir := telemetry.Default
+	if config.TelemetryDir != "" {
+		dir = telemetry.NewDir(config.TelemetryDir)
+	}
+	if mode, _ := dir.Mode(); mode == "off" {
+		return nil
+	}
 	uploader, err := newUploader(config)
 	if err != nil {
 		return err
